@@ -2,13 +2,28 @@
 """Regenerates /verif/MANIFEST.json from the table below (single source of truth)."""
 import json
 
-CLAIMED = {
- # id: (technique, level text, level note, design_ref)
+TEXTS = {
+ "C07": ("bounded-exhaustive enumeration of strings over the marker alphabet on the real Redact/StripMarkers vs a scanner-based reference model; all pairs of short well-formed redactables for the concatenation laws",
+         "Every string of <=6 (quick) / <=8 (thorough) tokens over {a,start,end,cross,LF,E2,80,B9} is pushed through both variants of Redact/StripMarkers/ToBytes/ToString and compared with an independent byte scanner; well-formed redactables up to 8/10 grammar tokens and all ordered pairs up to 4/5 tokens each for the homomorphism laws. Complete within the bound.",
+         "Alphabet argument: the operations distinguish only the classes that are tokens. Outputs of the other checks are covered by their own Redact-based oracles (C02/C03/C10).", "5/C07"),
+ "C09": ("bounded-exhaustive enumeration of SafeWriter call sequences on 8 real implementations in lock-step with a list-of-segments reference model, plus explicit-state breadth-first search over concrete buffer states with step-local invariants",
+         "All call sequences up to depth 3 (quick) / 4 (thorough) over an ~90-op alphabet (and depth 2 over the ~400-op full alphabet) run on StringBuilder, ManualBuffer, the Sprintfn printer, the SafeFormat printer, the Formatter->SafePrinter route, the error-hook route and two surrounding contexts; both C09 equalities, well-formedness, line-safety and cross-implementation agreement up to envelope merging are checked on each; a breadth-first search over canonical Buffer states (read through a hook) checks the step form of the equalities on every transition.",
+         "Payloads are at most 2 alphabet symbols plus long symbols crossing the 64-byte allocation; state search is depth-bounded (not closed) with pending bytes capped at 4; canonical key argument in DESIGN.md.", "5/C09"),
  "C10": ("bounded-exhaustive enumeration of byte strings x offsets x settings on the real escape routine vs an append-only reference model; all write-splits on the real ManualBuffer",
          "Every byte string over an 8-symbol marker-aware alphabet up to length 6 (quick) / 8 (thorough), at every start offset and both line-split settings, is run through the real scanner and compared with a 25-line append-only model; EscapeMarkers/EscapeBytes clauses and all 2^(n-1) write splits are checked on the same space. Complete within the bound, no sampling.",
-         "Strings longer than the bound only through the systematic length-70 family; bytes outside the alphabet behave like 'a' for the scanner (it compares against the two 3-byte markers and LF only). Reference model and oracles are trusted.",
-         "5/C10"),
+         "Strings longer than the bound only through the systematic length-70 family; bytes outside the alphabet behave like 'a' for the scanner (it compares against the two 3-byte markers and LF only). Reference model and oracles are trusted.", "5/C10"),
+ "C11": ("exhaustive enumeration of whole parameter domains (all runes, all bytes, all short format strings, all reflect kinds) and of panic positions in scripted user methods, on the real code",
+         "Every rune in [-2,0x110001] (quick: [-2,0x3000) + all surrogates + boundaries) and every byte through every rune/byte writer of 6 implementations in 4 buffer states; every format of <=3/4 tokens and all 1-2 byte formats with 5 argument lists; JoinTo with operands of every kind x 3 writers x 3 delimiters; SafeFormat/Format bodies of <=2/3 ops panicking at every position with 6 payload kinds at 3 nesting levels, and panicking String/Error/GoString/SafeMessage methods: no panic escapes, earlier output is preserved, the report text and the unsafe classification of the payload are exact.",
+         "Memory exhaustion, Grow(<0), nil writers/receivers are outside the claim as the property says. Double panics are compared with fmt in C04.", "5/C11"),
+ "C13": ("explicit-state breadth-first search over concrete buffer states applying every accessor/reset at every state, plus exhaustive insertion of accessors/resets at every position of every bounded call sequence",
+         "At every canonical buffer state reached within the depth bound every accessor is applied and the hidden state compared before/after (hook), all one-step futures compared with the accessor-free run, Len compared with RedactableString; every reset is followed by all one/two-step futures compared with a new object, and strings handed out earlier are re-compared after writes into the same storage. The same insertions are made at every position of every StringBuilder call sequence up to depth 2/3.",
+         "RedactableBytes results are not claimed immutable. State search is depth-bounded.", "5/C13"),
+ "C14": ("complete enumeration of the finite directive product under both printers, round-tripping through MakeFormat",
+         "The whole product 32 flag subsets x 8 widths x 6 precisions x 58 verbs is executed under fmt's State and redact's printer (Formatter and SafeFormatter entry); state after re-printing with the reproduced format must equal the original state; MakeFormat is compared with fmt.FormatString; Safe/Unsafe/forwarder fidelity under fmt for 19 operands x the product. Exhaustive in both tiers (quick thins widths/precisions for the operand product only).",
+         "The reference is this sandbox's fmt (Go 1.23.5).", "5/C14"),
 }
+CLAIMED_IDS = ["C07", "C09", "C10", "C11", "C13", "C14"]
+CLAIMED = {k: TEXTS[k] for k in CLAIMED_IDS}
 
 PENDING = {}
 ALL = ["C%02d" % i for i in range(1, 18)]
